@@ -127,8 +127,19 @@ class Result(dict):
         dict.__init__(self, name=name, kind=kind, verdict=verdict, **kw)
 
 
+UNKNOWN_BUDGET = int(os.environ.get('VERIF_UNKNOWN_BUDGET', '6'))
+_unknowns = [0]
+
+
 def discharge(name, kind, pc, goal, function=None, path=None, extra=(), replay=None, timeout_ms=None):
+    degraded = _unknowns[0] >= UNKNOWN_BUDGET
+    if degraded and timeout_ms is None:
+        # this worker already met several undecided obligations (the tree probably breaks a contract):
+        # keep going with a small budget so that the run ends and the stand-in can decide
+        timeout_ms = 1500
     verdict, model, ms, backend = prove(pc, goal, timeout_ms, extra)
+    if verdict == 'unknown':
+        _unknowns[0] += 1
     if verdict == 'unknown' and timeout_ms is None:
         # retry on the cone of influence of the goal (dropping assumptions is sound), then with a larger budget
         sub = cone_of_influence(pc, goal)
